@@ -124,3 +124,67 @@ Proof. intros. change W63 with (2 ^ 63). apply Z.pow_le_mono_r; lia. Qed.
 
 Lemma pow2_lt_mono a b : 0 <= a < b -> 2 ^ a < 2 ^ b.
 Proof. intros. apply Z.pow_lt_mono_r; lia. Qed.
+
+(* ---------- bitwise not on u64 and the "merge" of typed register writes ---------- *)
+Lemma testbit_u64_high a i : u64 a -> 64 <= i -> Z.testbit a i = false.
+Proof. intros Ha Hi. apply (testbit_high_zero a 64); [exact Ha|lia]. Qed.
+
+Lemma not64_lnot a : u64 a -> not64 a = Z.land (Z.lnot a) (Z.ones 64).
+Proof.
+  intros Ha. rewrite Z.land_ones by lia. unfold Z.lnot, not64, u64, W64 in *.
+  change (2 ^ 64) with 18446744073709551616.
+  replace (Z.pred (- a)) with ((18446744073709551615 - a) + (-1) * 18446744073709551616) by lia.
+  rewrite Z.mod_add by lia. rewrite Z.mod_small by lia. lia.
+Qed.
+
+Lemma testbit_not64 a i : u64 a -> 0 <= i ->
+  Z.testbit (not64 a) i = (i <? 64) && negb (Z.testbit a i).
+Proof.
+  intros Ha Hi. rewrite not64_lnot by assumption. rewrite Z.land_spec, Z.lnot_spec by lia.
+  destruct (i <? 64) eqn:E.
+  - rewrite Z.ones_spec_low by lia. rewrite andb_true_r. reflexivity.
+  - rewrite Z.ones_spec_high by lia. rewrite andb_false_r. reflexivity.
+Qed.
+
+Lemma subset_bits f all i : Z.land f all = f -> Z.testbit f i = true -> Z.testbit all i = true.
+Proof.
+  intros H Hf. rewrite <- H, Z.land_spec in Hf. apply andb_true_iff in Hf. apply Hf.
+Qed.
+
+Definition merge (old all f : Z) : Z := Z.lor (Z.land old (not64 all)) f.
+
+Lemma merge_modelled old all f : u64 all -> Z.land f all = f ->
+  Z.land (merge old all f) all = f.
+Proof.
+  intros Hall Hsub. unfold merge. apply Z.bits_inj'. intros i Hi.
+  rewrite Z.land_spec, Z.lor_spec, Z.land_spec, testbit_not64 by assumption.
+  destruct (Z.testbit f i) eqn:Ef.
+  - rewrite (subset_bits f all i Hsub Ef). rewrite orb_true_r. reflexivity.
+  - rewrite orb_false_r. destruct (Z.testbit all i); cbn; rewrite ?andb_false_r; reflexivity.
+Qed.
+
+Lemma merge_unmodelled old all f : u64 all -> Z.land f all = f ->
+  Z.land (merge old all f) (not64 all) = Z.land old (not64 all).
+Proof.
+  intros Hall Hsub. unfold merge. apply Z.bits_inj'. intros i Hi.
+  rewrite !Z.land_spec, Z.lor_spec, Z.land_spec, testbit_not64 by assumption.
+  destruct (Z.testbit f i) eqn:Ef.
+  - rewrite (subset_bits f all i Hsub Ef). cbn. rewrite !andb_false_r. reflexivity.
+  - rewrite orb_false_r. destruct (Z.testbit old i), (i <? 64), (Z.testbit all i); reflexivity.
+Qed.
+
+Lemma merge_u64 old all f : u64 old -> u64 all -> u64 f -> u64 (merge old all f).
+Proof.
+  intros Ho Ha Hf. unfold merge, u64 in *.
+  assert (H0 : 0 <= Z.lor (Z.land old (not64 all)) f).
+  { apply Z.lor_nonneg. split; [apply Z.land_nonneg; lia|lia]. }
+  split; [exact H0|].
+  destruct (Z.eq_dec (Z.lor (Z.land old (not64 all)) f) 0) as [->|Hne]; [unfold W64; lia|].
+  apply Z.log2_lt_cancel. change (Z.log2 W64) with 64.
+  assert (Hl : forall x, 0 <= x < W64 -> Z.log2 x < 64).
+  { intros x Hx. destruct (Z.eq_dec x 0) as [->|]; [cbn; lia|]. apply Z.log2_lt_pow2; [lia|exact (proj2 Hx)]. }
+  rewrite Z.log2_lor by (try apply Z.land_nonneg; lia).
+  apply Z.max_lub_lt; [|apply Hl; lia].
+  assert (Z.log2 (Z.land old (not64 all)) <= Z.log2 old); [|pose proof (Hl old Ho); lia].
+  rewrite Z.log2_land by (unfold not64, W64 in *; lia). apply Z.le_min_l.
+Qed.
